@@ -308,10 +308,45 @@ class ExprNorm(ast.NodeTransformer):
             return _loc(ast.List(elts=vals, ctx=ast.Load()), node)
         return node
 
+    def visit_For(self, node):
+        self.generic_visit(node)
+        node.iter = _drop_keys(node.iter)
+        return node
+
+    def visit_comprehension(self, node):
+        self.generic_visit(node)
+        node.iter = _drop_keys(node.iter)
+        return node
+
     def visit_Call(self, node):
         self.generic_visit(node)
         d = dotted(node.func)
         args = node.args
+        if d in ('operator.attrgetter', 'attrgetter') and len(args) == 1 and not node.keywords \
+                and isinstance(args[0], ast.Constant) and isinstance(args[0].value, str) and \
+                args[0].value.isidentifier():
+            lam = ast.Lambda(args=ast.arguments(posonlyargs=[], args=[ast.arg(arg='_o')],
+                                                vararg=None, kwonlyargs=[], kw_defaults=[],
+                                                kwarg=None, defaults=[]),
+                             body=ast.Attribute(value=ast.Name(id='_o', ctx=ast.Load()),
+                                                attr=args[0].value, ctx=ast.Load()))
+            return _loc(lam, node)
+        if d in ('operator.itemgetter', 'itemgetter') and len(args) == 1 and not node.keywords \
+                and isinstance(args[0], ast.Constant):
+            lam = ast.Lambda(args=ast.arguments(posonlyargs=[], args=[ast.arg(arg='_o')],
+                                                vararg=None, kwonlyargs=[], kw_defaults=[],
+                                                kwarg=None, defaults=[]),
+                             body=ast.Subscript(value=ast.Name(id='_o', ctx=ast.Load()),
+                                                slice=args[0], ctx=ast.Load()))
+            return _loc(lam, node)
+        if d == 'getattr' and len(args) == 2 and not node.keywords and \
+                isinstance(args[1], ast.Constant) and isinstance(args[1].value, str) and \
+                args[1].value.isidentifier() and not args[1].value.startswith('__'):
+            # getattr(x, 'name') is x.name
+            return _loc(ast.Attribute(value=args[0], attr=args[1].value, ctx=ast.Load()), node)
+        if d in ('list', 'set', 'tuple', 'sorted', 'frozenset', 'len', 'iter') and len(args) >= 1:
+            node.args[0] = _drop_keys(args[0])
+            args = node.args
         if d in ('tuple', 'list', 'set', 'frozenset') and len(args) == 1 and not node.keywords \
                 and isinstance(args[0], (ast.GeneratorExp, ast.ListComp)):
             vals = self._eval_comprehension(args[0])
@@ -382,6 +417,14 @@ class ExprNorm(ast.NodeTransformer):
 
 def norm_expr(e):
     return ExprNorm().visit(e)
+
+
+def _drop_keys(it):
+    """iterating `m.keys()` is iterating `m` (mappings iterate over their keys)"""
+    if isinstance(it, ast.Call) and isinstance(it.func, ast.Attribute) and \
+            it.func.attr == 'keys' and not it.args and not it.keywords:
+        return it.func.value
+    return it
 
 
 def _bind_target(target, value):
@@ -749,6 +792,27 @@ class StmtNorm(object):
                 new = ast.If(test=v.test, body=[_loc(ast.Return(value=v.body), s)],
                              orelse=[_loc(ast.Return(value=v.orelse), s)])
                 out.extend(self.expand_ifexp([_loc(new, s)]))
+            elif isinstance(s, (ast.Assign, ast.Return, ast.Expr)) and \
+                    _leading_ifexp(v) is not None and \
+                    (not isinstance(s, ast.Assign) or
+                     (len(s.targets) == 1 and isinstance(s.targets[0], (ast.Name, ast.Attribute,
+                                                                         ast.Subscript)))):
+                # x = f(A if c else B)  ->  if c: x = f(A) else: x = f(B)
+                self.bump('ifexp')
+                ie = _leading_ifexp(v)
+
+                def variant(branch):
+                    s2 = copy.deepcopy(s)
+                    ie2 = _leading_ifexp(s2.value)
+
+                    class R(ast.NodeTransformer):
+                        def visit_IfExp(self_, n):
+                            return copy.deepcopy(branch) if n is ie2 else n
+                    s2.value = R().visit(s2.value)
+                    return s2
+                new = ast.If(test=copy.deepcopy(ie.test), body=[variant(ie.body)],
+                             orelse=[variant(ie.orelse)])
+                out.append(_loc(new, s))
             elif isinstance(s, ast.Assign) and isinstance(v, ast.IfExp) and \
                     len(s.targets) == 1 and isinstance(s.targets[0], (ast.Name, ast.Attribute)):
                 self.bump('ifexp')
@@ -950,6 +1014,19 @@ def _ends_with_flag(branch, flag):
     if isinstance(last, ast.If) and last.orelse:
         return _ends_with_flag(last.body, flag) and _ends_with_flag(last.orelse, flag)
     return False
+
+
+def _leading_ifexp(v):
+    """the conditional expression that is the first thing a call expression evaluates:
+    f(A if c else B, simple...) with a simple callee (possibly nested one level)"""
+    if isinstance(v, ast.Call) and is_simple(v.func) and v.args and not \
+            any(isinstance(a, ast.Starred) for a in v.args):
+        a0 = v.args[0]
+        if isinstance(a0, ast.IfExp):
+            return a0
+        if isinstance(a0, ast.Call) and len(v.args) == 1 and not v.keywords:
+            return _leading_ifexp(a0)
+    return None
 
 
 def _target_in(target, expr):
@@ -2298,6 +2375,7 @@ def normalise_trees(trees, reference=None, inline=True, disabled=()):
         for modname, tree in trees.items():
             ExprNorm().visit(tree)
             sn.module(tree)
+            ExprNorm().visit(tree)       # forms exposed by unrolling / substitution
             ast.fix_missing_locations(tree)
 
     def rename_stage():
